@@ -294,7 +294,11 @@ impl WorldA {
         let hostile_mask = cfg.get("hostile");
         for i in 0..ncl {
             let mut c = Conn {
-                id: 100 + i as u64,
+                // client ids are plain u64s chosen by the application: the corners of the range are as legal as any other
+                id: match cfg.get("idmode") {
+                    1 => [u64::MAX, 0, u64::MAX - 1, 1][i % 4],
+                    _ => 100 + i as u64,
+                },
                 present: false,
                 client: None,
                 local: false,
@@ -545,6 +549,7 @@ pub fn gen_cfg(family: &str, rng: &mut Rng) -> Cfg {
             cfg.set("hostile", h);
         }
         Fam::Multi => {
+            cfg.set("idmode", *rng.pick(&[0u64, 0, 1]));
             if rng.chance(1, 3) {
                 cfg.set("hostile", 1 << rng.below(ncl));
             }
@@ -559,6 +564,7 @@ pub fn gen_cfg(family: &str, rng: &mut Rng) -> Cfg {
             cfg.set("tele_mid", 0);
             // an application that polls server events once per tick instead of after every call
             cfg.set("evlazy", *rng.pick(&[0u64, 0, 1]));
+            cfg.set("idmode", *rng.pick(&[0u64, 0, 1]));
         }
         _ => {}
     }
